@@ -49,4 +49,10 @@ var propMeta = map[string]*PropMeta{
 		Assumptions: append([]string{"process-kill model: every completed system call survives, user-space state is lost (DESIGN 3.7); power loss is not modelled", "crash points beyond the 4th occurrence of a site are sampled, not enumerated"}, commonAssumptions...),
 		Probes: []string{"fault.crash.site", "fault.crash.quiescent", "fault.crash.inflight", "fault.crash.ioerr", "fault.restart.clean", "probe.inflight-applied", "site.gc.removed", "site.open.fileChosen"},
 	},
+	"C18": {
+		Level: "exploration", QuickSecs: 40, ThoroughSecs: 600, Recycle: 300,
+		Rule: "one case = one seeded plan: generated dataset with a random storage split, then one memstore-inclusive full scan whose consumer is a script: between the snapshot and the first row (hook scan.snapshotTaken) and/or after generated row indexes it inserts 1-4 further points (70% aimed at the key and period of an earlier point, the rest new keys/periods), lets them drain into the live memstore (3 WAL polls), optionally forces a flush, and resumes. Oracle: reference aggregator frozen at scan start: the scan's rows must equal the model of exactly the points processed before the scan started (no later point in any row, every earlier point in every field); afterwards a fresh query must equal the model of all points. Non-trivial = at least one point was inserted during the scan and the snapshot model was non-empty.",
+		Real:  realS, Stub: stubS, Assumptions: commonAssumptions,
+		Probes: []string{"probe.pause", "probe.pause-before-first-row", "probe.flush-during-scan"},
+	},
 }
